@@ -105,6 +105,30 @@ CHECKS = {
     design_ref="DESIGN.md 7 (C20)",
     note="Trusts TLC, rfcdec and MD5 digests of payloads.",
     technique="TLC-enumerated read schedules replayed on the real Sender; TLA+ monitor comparing packet sequences"),
+ "C04": dict(
+    category="fault_enumeration",
+    text="TLC enumerates (valid prefix length) x (adversarial operation) over real sessions of every scheme and signalling mode: every single-byte substitution in the header region of every packet, 30 crafted FDT instances (missing / zero / huge / non-numeric / inconsistent attributes, malformed XML) each followed by object packets, seeded mutation sequences (bit flips, header-field edits, truncation, extension, splicing), every byte string of length <= 2 (thorough <= 3) and seeded longer ones.  All cases are pushed into one real MultiReceiver (aggregated events: count, ok, err, panic, slowest call, peak heap per call; offenders itemised), a watchdog catches hangs, and afterwards a valid session with fresh TOIs on the same endpoint and TSI must be delivered exactly.  The TLA+ monitor (ReceiverProps.tla) judges every event: result in {ok, err}, bounded time and heap, writer protocol still respected, valid suffix delivered.",
+    design_ref="DESIGN.md 7 (C04), 8",
+    note="Raw bytes are below the abstraction of the specification: the spec supplies the receiver states (prefixes), the classes of adversarial operations and the oracle; which concrete bytes misbehave is found by enumeration in the harness.  Heap measured by a counting allocator; time limits 1 s per datagram and a 3 s watchdog.",
+    technique="TLC-enumerated fault schedules + harness-side mass enumeration below the abstraction; TLA+ monitor on recorded traces"),
+ "C05": dict(
+    category="model_checking",
+    text="PathWalk.tla enumerates the property's grammar completely to the depth bound (9 prefixes x up to 3 (quick) / 5 (thorough) segments out of 8 kinds x outcome complete / MD5 error / interrupted) plus seeded random strings; each location is written XML-escaped into a crafted FDT (so strings the url crate cannot carry are included) and delivered with packets from flute's own packet builder to a real MultiReceiver with ObjectWriterFSBuilder inside a jail directory with canaries on six levels above the destination; the before/after tree diff is judged by PathWalk.tla: every touched path is strictly below the destination directory, a failed object leaves no file, a plain location ends up byte-exact at dest/<path> (filesystem clause of C01).",
+    design_ref="DESIGN.md 4.7, 7 (C05)",
+    note="URL parsing (url crate) is not modelled; effects outside the jail are only observable through the @ROOT@ segment pointing inside the jail.",
+    technique="TLA+ grammar enumeration with TLC; recorded file-system effects validated by TLC against the spec"),
+ "C17": dict(
+    category="model_checking",
+    text="TLC enumerates traffic patterns that keep objects undecodable (no FDT, first symbol of every block missing, only the first packet of every FDT instance, everything) x repetitions x cache limits x error-list lengths x time-outs over real multi-object sessions with multi-packet FDT instances, plus seeded long runs with 20-40 TOIs; after every call the monitor bounds the bytes really held in the packet cache (<= limit + one packet) and in decoded blocks (<= limit + 2 blocks), the failed-object list, and after a cleanup with all time-outs elapsed requires no object, no unfinished FDT instance, no idle session and the heap back near its initial level.",
+    design_ref="DESIGN.md 7 (C17)",
+    note="Byte counts are summed over the real containers by the read-only hook snapshot (not flute's own counters) and cross-checked with a counting global allocator; 'elapsed' = time-out 0 plus a 5 ms sleep (monotonic clock).",
+    technique="TLA+ monitor (ReceiverProps.tla) on traces of the real MultiReceiver under TLC-enumerated traffic patterns"),
+ "C18": dict(
+    category="model_checking",
+    text="MultiRecv.tla models the TSI filter as the code implements it (reference counts removed at zero, exact match for the all-TSI bypass, source wildcard for per-TSI entries) and TLC proves for every operation sequence up to the depth bound that it equals the property's statement on the history of calls (added more often than removed).  Every sequence of <= 3 (thorough 4) add / remove / add-all / remove-all / set-filtering operations over 2 groups x {source, none} x 2 TSIs, each followed by a probe of all 8 keys, and every interleaving of 2-3 real sessions (distinct / equal TSIs, close-session packet anywhere, or expiry + cleanup) is replayed on the real MultiReceiver; Mon_Multi.tla checks processed iff listened, one open per creation, one close per end (close-session packet, expiry, drop), callbacks tagged with the session's endpoint and TSI, per-session delivery unchanged by interleaving.",
+    design_ref="DESIGN.md 4.5, 7 (C18)",
+    note="The race of the double is_expired() evaluation in MultiReceiver::cleanup (DESIGN D20) needs a sub-microsecond coincidence and is not reachable.",
+    technique="TLA+ mechanism spec model-checked with TLC; TLC-generated behaviours replayed on the real MultiReceiver; TLA+ monitor on recorded traces"),
 }
 
 NOT_YET = "check under construction in this round (specification and harness not finished yet)"
